@@ -487,6 +487,8 @@ PTRef Interpret::parseTerm(const ASTNode& term, LetRecords& letRecords) {
             tr = resolveTerm(name, std::move(args));
         } catch (ArithDivisionByZeroException &ex) {
             reportError(ex.what());
+        } catch (LANonLinearException &ex) {
+            reportError(ex.what());
         } catch (ApiException &e) {
             reportError(e.what());
         }
